@@ -280,12 +280,26 @@ fn run_program(prog: &[Op], max_len: usize, out: &mut UnitResult, unit: &Value) 
     out.traces_validated += 1;
     let pj = || json!(prog.iter().map(op_json).collect::<Vec<_>>());
     let mut matched = 0u64;
-    for route in requests(max_len, &table) {
+    let wire_rt = super::c07::wire_runtime();
+    for (ri, route) in requests(max_len, &table).into_iter().enumerate() {
         out.evaluations += 1;
+        // what the router is handed is what the real request decoder makes of the remote's bytes:
+        // short routes and a slice of the others travel through the real encoder and decoder
+        let arriving = if route.chars().count() <= 1 || ri % 97 == 0 {
+            match super::c07::route_via_wire(&wire_rt, &route) {
+                Ok(r) => r,
+                Err(e) => {
+                    out.violation("route-lost-on-the-wire", format!("route {route:?} did not survive the request codec: {e}"), json!({"unit": unit, "program": pj(), "route": route}));
+                    continue;
+                }
+            }
+        } else {
+            route.clone()
+        };
         let expect = ref_match(&table, &route);
         let before: u64 = calls.lock().unwrap().values().sum();
         let layers_before = layer_runs.load(Ordering::SeqCst);
-        let r = std::panic::catch_unwind(std::panic::AssertUnwindSafe(|| router.call(Request::new(Bytes::new()).with_route(route.clone())).now_or_never()));
+        let r = std::panic::catch_unwind(std::panic::AssertUnwindSafe(|| router.call(Request::new(Bytes::new()).with_route(arriving.clone())).now_or_never()));
         let after_map = calls.lock().unwrap().clone();
         let after: u64 = after_map.values().sum();
         let replay = json!({"unit": unit, "program": pj(), "route": route});
@@ -346,7 +360,7 @@ impl Check for C16 {
         CheckMeta {
             property: "C16",
             level: "model_checking",
-            rule: "every table-building program over {route(p in 7 patterns), route_layer(fresh tag), merge(one of 5 sub-tables incl. nested merges and layers), add_rpc_service(3 names)} up to depth 3 (quick) / 4 (thorough) = states, x every request string over {/ a b * : . space é NUL} (plus long routes: a two-byte character at every byte offset 0..130, lengths around 2^6..2^16, bare and behind every wildcard prefix) up to length 4 plus prefix/suffix mutations of every registered pattern = evaluations, on the real Router against a reference matcher; plus loom (harness/lockx routes): two threads building tables of 1-4 routes (with and without merge) at the same time, a scheduling point before every access of the shared route-id counter (hook H9), preemption bound 3 | 4, every path must be answered by its own service; tables that the router rejects at build time (documented conflict panic) are counted and skipped; distinct = distinct (table size, layered routes, any match)".into(),
+            rule: "every table-building program over {route(p in 7 patterns), route_layer(fresh tag), merge(one of 5 sub-tables incl. nested merges and layers), add_rpc_service(3 names)} up to depth 3 (quick) / 4 (thorough) = states, x every request string over {/ a b * : . space é NUL} (plus long routes: a two-byte character at every byte offset 0..130, lengths around 2^6..2^16, bare and behind every wildcard prefix) up to length 4 plus prefix/suffix mutations of every registered pattern = evaluations, on the real Router against a reference matcher (routes of length <= 1 and every 97th other one are first passed through the real request encoder and decoder, as a remote's route would be); plus loom (harness/lockx routes): two threads building tables of 1-4 routes (with and without merge) at the same time, a scheduling point before every access of the shared route-id counter (hook H9), preemption bound 3 | 4, every path must be answered by its own service; tables that the router rejects at build time (documented conflict panic) are counted and skipped; distinct = distinct (table size, layered routes, any match)".into(),
             assumptions: vec!["overlapping patterns cannot coexist in one table (the router rejects them at build time), so the reference match is unique".into()],
             exhaustive: true,
         }
